@@ -312,6 +312,31 @@ def run_label_arithmetic(chk, F):
     chk.count('containers sized from a dimension label', n)
 
 
+def run_birth_direction(chk, F):
+    """E7-birth-direction: a class born by a forward arrow is the newest, a class born by a backward arrow the oldest
+    (Birth_ordering::add_birth_forward / add_birth_backward). Each arrow handler of Zigzag_persistence registers births
+    with the call of its own direction only: `_process_forward_arrow` and the functions it alone calls never call
+    add_birth_backward, `_process_backward_arrow` never calls add_birth_forward."""
+    n = 0
+    for fname, own, other in (('_process_forward_arrow', 'add_birth_forward', 'add_birth_backward'),
+                              ('_process_backward_arrow', 'add_birth_backward', 'add_birth_forward')):
+        fs = [f for f in F.functions if f.get('clsname') == 'Zigzag_persistence' and f['name'] == fname and
+              f.get('inst') in (0, 2) and f.get('body') is not None]
+        if not fs:
+            raise AnalysisBroken('C07: %s not found' % fname)
+        f = fs[0]
+        calls = [ir.call_name(x) for x in ir.walk(f['body']) if ir.is_call(x) and
+                 (ir.call_name(x) or '').startswith('add_birth_')]
+        n += len(calls)
+        ok = other not in calls
+        chk.ob('E7-birth-direction', 'Zigzag_persistence::%s registers the births it creates with %s (%d calls)' % (
+            fname, own, len(calls)), '%s:%d' % (rel(f['file']), f['line']), ok,
+            '' if ok else '%s is called from %s: the class is ranked at the wrong end of the birth order, the surjective '
+            'diamond and the transpositions then pick the wrong partner' % (other, fname),
+            key='E7|Zigzag_persistence::%s|birth-direction' % fname)
+    chk.expect_count('E7-birth-direction', 'birth registrations in the arrow handlers', n, 2)
+
+
 def run(tier, replay=None):
     chk = Check('C07', tier,
                 'Static decision of one bookkeeping clause of zigzag persistence: on every path of the forward arrow, '
@@ -389,6 +414,7 @@ def run(tier, replay=None):
     run_slot_order(chk, F)
     run_first_value(chk, F)
     run_label_arithmetic(chk, F)
+    run_birth_direction(chk, F)
     findrule.run(chk, F, ('zigzag_persistence.h', 'filtered_zigzag_persistence.h'), {
         'Zigzag_persistence::_process_backward_arrow|births_':
             'every chain of F (unpaired column) has an entry in births_: the creation / registration lock-step rule '
